@@ -39,6 +39,7 @@ BUILTIN = {
 # std::unique_ptr<T> is lowered to a raw `T *` (ownership and destructors are dropped, DESIGN.md 3.1)
 DEFAULT_TYPE_PATTERNS = [
     (r'unique_ptr<(.*?)(, default_delete<.*>)?>', r'@\1 *'),
+    (r'(?:__gnu_cxx::)?__alloc_traits<allocator<(.*)>, .*>::value_type', r'@\1'),
 ]
 DEFAULT_CALL_PATTERNS = [
     (r'o:->:unique_ptr<.*>', '(*$o)'),
@@ -1033,17 +1034,23 @@ class Translator:
         rt = self.objtype(rangedecl)
         rtd = self.objtype_desugared(rangedecl)
         keys = ['range:' + rt, 'range:' + (rtd or '?')]
-        try:
-            keys.append('range:@' + self.ctype(self.qt(rangedecl), rangedecl['type'].get('desugaredQualType')).base)
-        except Unsupported:
-            pass
+        ct = None
+        for cand in (rangedecl, self.peel(rexpr), rexpr):       # the implicit __range variable often lacks the desugared type
+            try:
+                ct = self.ctype(self.qt(cand), cand.get('type', {}).get('desugaredQualType'))
+                ct = CT(ct.base, ct.ptr, False, ct.const, ct.cxx)
+                keys.append('range:@' + ct.base)
+                break
+            except Unsupported:
+                ct = None
         b = self.lookup_binding(keys)
         if b is None:
             raise Unsupported('range-for over %s' % rt)
         size_fn, at_fn = b
         self.tmp += 1
         r, i = '__range%d' % self.tmp, '__i%d' % self.tmp
-        ct = self.ctype(self.qt(rangedecl), rangedecl['type'].get('desugaredQualType'))
+        if ct is None:
+            ct = self.ctype(self.qt(rangedecl), rangedecl['type'].get('desugaredQualType'))
         self.locals.append({})
         vt = self.ntype(loopvar)
         self.locals[-1][loopvar['id']] = vt
@@ -1510,10 +1517,10 @@ class Translator:
         sig = None
         if isinstance(b, tuple):
             b, sig = b
+        if callable(b):
+            return b(self, n, obj, args, argnodes)        # a callable binding lowers its own arguments (args may be None)
         if args is None:
             args = self.lower_args(argnodes, sig)
-        if callable(b):
-            return b(self, n, obj, args, argnodes)
         if '$' in b:
             t = b.replace('$o', '(%s)' % obj if obj else '')
             for i, a in enumerate(args):
